@@ -177,7 +177,8 @@ func c14Observe(root *ggql.Root) (string, *core.PanicInfo) {
 		// fields, union members, directives, types) for every name the menu's documents introduce
 		for _, rq := range []string{introQuery, "{__typename}", "mutation {__typename}", "{__type(name:\"N1\"){name fields{name}}}",
 			"{px px1 px2 added alt}", "mutation {pm}", "{pick(e: PUCE)}", "{pick(e: PINK)}", "{pick(in: {min: 1, more: 2})}", "{u{... on Ev{__typename}}}", "{a @pd {id}}", "{a @nd {id}}",
-			"{__type(name:\"P1\"){name} p2: __type(name:\"P2\"){name} alt: __type(name:\"Alt\"){name}}", "{a{nick} named{nick}}", "subscription {ps}"} {
+			"{__type(name:\"P1\"){name} p2: __type(name:\"P2\"){name} alt: __type(name:\"Alt\"){name}}", "{a{nick} named{nick}}", "subscription {ps}",
+			"{pets{__typename ... on Cat{name} ... on Dog{name}} animals{__typename name ... on Cat{c: name}}}", "{cat{__typename name} pets{... on Animal{name}}}"} {
 			res := root.ResolveString(rq, "", nil)
 			b.WriteString("REQ: " + string(toJSON(canonIntro(world.Canon(res)))) + "\n")
 		}
@@ -185,7 +186,49 @@ func c14Observe(root *ggql.Root) (string, *core.PanicInfo) {
 	return b.String(), pi
 }
 
+// Initial root 3: data served by REFLECTION through Go types that are not called like the object types (bound by RegisterType) and
+// reached through interface- and union-typed fields: what a load does to a binding shows in the responses only.
+type c14Feline struct{ Name string }
+type c14Canine struct{ Name string }
+type c14ReflQuery struct {
+	Pets    []interface{}
+	Animals []interface{}
+	Cat     *c14Feline
+}
+type c14ReflRoot struct{ Query *c14ReflQuery }
+
+const c14ReflSDL = "interface Animal { name: String }\ntype Cat implements Animal { name: String }\ntype Dog implements Animal { name: String }\nunion Pet = Cat | Dog\n" +
+	"type Query { pets: [Pet] animals: [Animal] cat: Cat }\ndirective @tag(v: Int) on OBJECT\n"
+
+func c14ReflMenu() []c14Doc {
+	return []c14Doc{
+		{Name: "V-new-type", SDL: "type Extra { a: Int }\n"},
+		{Name: "V-extend-bound-type", SDL: "extend type Cat { age: Int }\n"},
+		{Name: "V-extend-with-go-directive", SDL: "extend type Dog @go(type: \"c14Canine\")\n"},
+		{Name: "F-go-directive-then-unknown-target", SDL: "extend type Cat @go(type: \"c14Feline\")\nextend type Nowhere { a: Int }\n"},
+		{Name: "F-go-directive-naming-another-type-then-reserved-name", SDL: "extend type Cat @go(type: \"c14Canine\")\ntype __Bad { a: Int }\n"},
+		{Name: "F-tag-then-duplicate-field", SDL: "extend type Dog @tag(v: 1)\nextend type Dog { name: String }\n"},
+		{Name: "F-member-then-duplicate-member", SDL: "type Bird implements Animal { name: String }\nextend union Pet = Bird\nextend union Pet = Cat\n"},
+		{Name: "F-interface-extended-then-unknown-type", SDL: "extend interface Animal { legs: Int }\nextend type Cat { legs: Int }\nextend type Dog { legs: Zq7 }\n"},
+	}
+}
+
 func c14Initial(variant int) *ggql.Root {
+	if variant == 3 {
+		root := ggql.NewRoot(&c14ReflRoot{Query: &c14ReflQuery{Pets: []interface{}{&c14Feline{"tom"}, &c14Canine{"rex"}, &c14Feline{"kit"}}, Animals: []interface{}{&c14Canine{"rex"}, &c14Feline{"tom"}}, Cat: &c14Feline{"tom"}}})
+		if err := root.ParseString(c14ReflSDL); err != nil {
+			panic(core.EngineError{Msg: "C14 reflection schema refused: " + err.Error()})
+		}
+		for _, rt := range []struct {
+			v interface{}
+			n string
+		}{{&c14ReflQuery{}, "Query"}, {&c14Feline{}, "Cat"}, {&c14Canine{}, "Dog"}} {
+			if err := root.RegisterType(rt.v, rt.n); err != nil {
+				panic(core.EngineError{Msg: "C14 reflection registration refused: " + err.Error()})
+			}
+		}
+		return root
+	}
 	root := ggql.NewRoot(c16Dummy{})
 	s := sgen.Bases()[variant]
 	if err := root.ParseString(s.SDL()); err != nil {
@@ -238,8 +281,11 @@ func runC14(c *core.Ctx) {
 	}
 	completed := true
 	var idx int64
-	for variant := 0; variant < 3 && completed; variant++ {
+	for variant := 0; variant < 4 && completed; variant++ {
 		menu := c14Menu(variant)
+		if variant == 3 {
+			menu = c14ReflMenu()
+		}
 		nValid := 0
 		for _, d := range menu {
 			if strings.HasPrefix(d.Name, "V-") && d.AddTypes == nil {
